@@ -262,6 +262,59 @@ def run_probe(ns, sel, n, m, total, override=None):
         return r, None
 
 
+GEN_SRC = """
+def ticks(n):
+    for t in range(n):
+        y = t * 3
+        yield y
+
+def driver(k):
+    it = ticks(5)
+    first = next(it)
+    x = k
+    rest = [v for v in it]
+    return [first] + rest
+"""
+
+
+def check_generator_context(scratch, res):
+    """A generator started before the constrained variable of its caller is set, and resumed after:
+    the first event is delivered (x is not captured yet), the later ones iff x satisfies the condition;
+    an override attached to the selector follows the same rule."""
+    import importlib.util
+    import os
+
+    from ptera import probing, tools
+
+    path = os.path.join(scratch, "c12gen.py")
+    with open(path, "w") as fh:
+        fh.write(GEN_SRC)
+    sp = importlib.util.spec_from_file_location("c12gen", path)
+    mod = importlib.util.module_from_spec(sp)
+    sp.loader.exec_module(mod)
+    ns = dict(vars(mod), gte=tools.gte)
+    for cond, holds in (("x=1", lambda k: k == 1), ("x=2", lambda k: k == 2), ("x~gte(2)", lambda k: k >= 2)):
+        for k in (1, 2, 3):
+            res.evaluations += 1
+            res.deciding += 1
+            sel = f"driver({cond}) > ticks > y"
+            try:
+                with probing(sel, env=ns) as p:
+                    got = p.accum()
+                    mod.driver(k)
+                with probing(sel, env=ns, overridable=True) as p:
+                    p.override(lambda d: -1)
+                    ov = mod.driver(k)
+            except Exception as e:
+                res.violation({"part": "G", "sel": sel, "k": k}, "exception: " + common.fmt_exc(e))
+                continue
+            exp_y = [0] + ([3, 6, 9, 12] if holds(k) else [])
+            exp_ov = [-1] + ([-1] * 4 if holds(k) else [3, 6, 9, 12])
+            if [e["y"] for e in got] != exp_y or ov != exp_ov:
+                res.violation({"part": "G", "sel": sel, "k": k}, {"what": "condition on the caller's variable, generator started before it was set", "events_y": [e["y"] for e in got], "expected_y": exp_y, "overridden_result": ov, "expected_result": exp_ov})
+            res.count("G_generator_context_checks")
+
+
 def part_b(spec, res):
     import importlib.util
     import os
@@ -270,6 +323,8 @@ def part_b(spec, res):
 
     start, count = spec["range"]
     scratch = spec["scratch"]
+    if start == 0:
+        check_generator_context(scratch, res)
     for idx in range(start, start + count):
         rnd = rng_for("C12B", spec["seed"], idx)
         src, meta = gen_program(rnd, idx)
